@@ -58,11 +58,19 @@ TRUSTED = ["Model/C16/Musig2.lean is a hand transcription of btclib/ecc/musig2.p
            "SHA-256 / tagged hash of the driver are modelled, validated against hashlib each run (hash.* streams)",
            "libsecp256k1 (partial_sig_verify_'s delegated arm, point arithmetic) is compared, not verified"]
 ASSUMPTIONS = [
-    "hcof / Btc.E2E.SecpCofactorOne (cofactor one: n*g = 0 for every point of y^2 = x^3 + 7 over the secp256k1 field, "
-    "i.e. #E = n; not proved, Mathlib has no point count): first explicit argument of the counted theorems "
-    "musig2_partial_sig_verifies_secp256k1_raw and musig2_aggregate_verifies_secp256k1_raw (MuSig2 T2/T3 over the raw "
-    "Btc.EC.ops secp256k1). Every other counted theorem is either abstract (hypothesis Btc.Lawful / Btc.LawfulGroup, "
-    "proved by C01 for the carrier opsSub), or carries no assumption about the curve.",
+    "no curve-level assumption is left on the secp256k1 statements: cofactor one (Btc.E2E.secpCofactorOne: n*g = 0 for "
+    "every point of y^2 = x^3 + 7 over the secp256k1 field, i.e. #E = n) is PROVED (lean/Proofs/E2E/CofactorOne.lean), "
+    "as are primality of p and n, CurveOk, p = 3 mod 4 and Delta != 0; the counted theorems musig2_{tweak_invariant,"
+    "partial_sig_verifies,aggregate_verifies,adaptor_completes}_secp256k1_raw (MuSig2 T1-T4 over the raw "
+    "Btc.EC.ops secp256k1) apply it and carry no hcof argument any more",
+    "every other counted theorem is abstract: its hypothesis Btc.Lawful / Btc.LawfulGroup (the ops are those of a group "
+    "of prime order with x / parity / lift_x maps) is proved by C01 for the carrier opsSub (EC.ops restricted to reduced "
+    "valid n-torsion pairs), and the _ec / _secp256k1 forms instantiate it; the abstract DLEQ / ECIES / Pedersen / "
+    "BIP352 scan and end-to-end theorems have no raw EC.ops form written out",
+    "hypotheses the counted theorems carry besides Lawful: hp/hn (coordinates and scalars fit 32 bytes: decided for "
+    "secp256k1), hH (32-byte digests) for DLEQ, hD (D(E(m)) = m) for the ECIES cipher parameter, hR (final nonce not "
+    "infinity) for MuSig2 T3/T4, hnz (address scan points are not infinity) and hrec (the scanning recipient's "
+    "payments all go to its one unlabelled address) for sp_end_to_end, LabelsOk for the scan soundness theorem",
 ]
 
 ORACLES: dict = {}
